@@ -85,7 +85,7 @@ def describe_build(cur, des, res):
     return "current=%s desired=%s plan=%s" % (ents(cur), ents(des), ents(res))
 
 
-def handle_planner(run, builds, mism, known_samples):
+def handle_planner(run, builds, known_samples):
     for line in builds[:400]:
         t = line.split("\t")
         inmodel, planok, coll = t[1].endswith("true"), t[2].endswith("true"), t[3][5:]
@@ -108,6 +108,10 @@ def handle_planner(run, builds, mism, known_samples):
             run.violation("corr-planner:" + h8(cur + des + res),
                           dict(payload, theorem="correspondence A (build_pending vs buildPendingEntries)"),
                           "buildPendingEntries result is a correct plan but outside the model's result set", True)
+
+
+def handle_planner_ops(run, mism):
+    """operation-level disagreements (correspondence only; reported after the input-carrying ones)."""
     for line in mism[:100]:
         t = line.split("\t")
         op = t[1]
@@ -254,6 +258,13 @@ def accept_traces(traces, fuel=20000):
 
 def runner_leg(run, args, stats, samples, known_samples, timeout=1500):
     scripts, traces, problems = run_batch(args, timeout)
+    # runs in which the process stalled longer than the readiness deadline prove nothing: discarded
+    stalled = [n for n, (d, toks) in traces.items() if "TIMING" in toks]
+    for n in stalled:
+        del traces[n]
+        scripts.pop(n, None)
+        problems.pop(n, None)
+    stats["timing_stalls_discarded"] = stats.get("timing_stalls_discarded", 0) + len(stalled)
     verdict, summ, ok = accept_traces(traces)
     if not ok or (scripts and not summ):
         run.violation("harness-failed", {"args": args}, "C16 acceptor driver failed to run", True)
@@ -269,6 +280,7 @@ def runner_leg(run, args, stats, samples, known_samples, timeout=1500):
                 f.write(scripts[n] + "\n")
             s2, t2, p2 = run_batch(["-file", f.name, "-jobs", "1"], 120)
             os.unlink(f.name)
+            t2 = {k: v for k, v in t2.items() if "TIMING" not in v[1]}
             v2, _, _ = accept_traces(t2)
             if any(v[0] in ("REJECT", "BADTRACE") for v in v2.values()) or p2:
                 again += 1
@@ -380,7 +392,7 @@ def run(run):
             mism += m
             if not ok:
                 run.violation("harness-failed", {"out": tail}, "C16 planner harness or model driver failed to run", True)
-    handle_planner(run, builds, mism, known_samples)
+    handle_planner(run, builds, known_samples)
     # F9 must still be exhibited by the corpus witness; otherwise the known finding is stale
     stale = pstats.get("planfail_known", 0) == 0
 
@@ -395,6 +407,7 @@ def run(run):
         runner_leg(run, ["-family", "all", "-n", str(min(chunk, n - done)), "-seed", str(run.seed * 100 + done // chunk),
                          "-jobs", str(min(C.NPROC, 12))], rstats, samples, known_samples)
         done += chunk
+    handle_planner_ops(run, mism)
     distinct = len(rstats.pop("distinct_traces", set()))
     cov = run.coverage
     cov.update({
@@ -456,6 +469,7 @@ def replay(path):
             f.write((pl["script"] + "\n") * 8)
         scripts, traces, problems = run_batch(["-file", f.name, "-jobs", "2"], 300)
         os.unlink(f.name)
+        traces = {k: v for k, v in traces.items() if "TIMING" not in v[1]}
         verdict, summ, ok = accept_traces(traces)
         failed = 0
         for n, (d, toks) in sorted(traces.items()):
